@@ -783,6 +783,10 @@ class Engine:
                 return VFunc("builtin", name=node.id)
             if sp is not None:
                 return VFunc("spec", fn=sp, name=node.id)
+            fdef = self.repo.find(fr.qual) if "." in (fr.qual or "") and not fr.qual.startswith("<") else None
+            if fdef is not None and any(isinstance(n, ast.Name) and n.id == node.id and isinstance(n.ctx, ast.Store) for n in ast.walk(fdef)):
+                # a local of this function that no statement on this path has assigned yet: Python raises UnboundLocalError
+                raise RaiseSig(VExc("UnboundLocalError"))
             raise OutOfSubset("unbound name %s" % node.id, node)
         if isinstance(r, tuple) and r[0] == "const-node":
             return self.eval_module_const(fr.modname, node.id, r[1])
